@@ -89,3 +89,23 @@ def c06_spec_filter_override_false(violation, m):
     rest = dict(inp)
     rest["combos"] = [c for c in combos if c != [False, None]]
     return PROP.check_law("filter_contains", rest)[0]
+
+
+@matcher("numeric_component_beyond_int_str_limit")
+def _beyond_int_limit(violation, m):
+    """C02/C11/C12: the witness is a version with one numeric component longer than the running interpreter's
+    ``sys.get_int_max_str_digits()`` (CPython >= 3.11; 0 means unlimited, then nothing matches)."""
+    import sys
+
+    lim = getattr(sys, "get_int_max_str_digits", lambda: 0)()
+    inp = violation.get("input") or {}
+    if not lim:
+        return False
+    if isinstance(inp.get("digits"), int):
+        return inp["digits"] > lim
+    s = inp.get("s")
+    if isinstance(s, str):
+        import re
+
+        return any(len(r) > lim for r in re.findall(r"[0-9]+", s))
+    return False
